@@ -60,3 +60,28 @@ def _C18():
 def _C19():
     return {"arms": [_hist("C19", 30000, 1200000)], "level": "exploration", "rule": RULE_HIST,
             "assumptions": ASSUME_REF, "real_stub": REAL_STUB_PY}
+
+
+RULE_LINK = ("each run draws a schema and 1-2 values, encodes them with the reference encoder in both byte orders and "
+             "applies the complete fault enumeration of sim/link.py to every encoding: every prefix (encodings <= 256 "
+             "bytes, else 64 boundary-biased cuts), 1-8 trailing bytes (zero / garbage / copy of the tail), every single "
+             "bit flip (<= 32 bytes, else 64 drawn, half inside control words), every control word (counter, sizer, "
+             "flag, discriminator, enum) overwritten with each boundary value, pairs of a control-word corruption with "
+             "a truncation, random strings; distinct = distinct (schema-shape digest, fault kind, kind of byte range "
+             "hit, outcome) tuples; every run with at least one faulted decode is non-trivial")
+
+
+def _C06():
+    from props import linkpy
+    return {"arms": [Arm(linkpy, "linkpy", 1600, 60000, label="S-LINK/py")], "level": "fault_enumeration",
+            "rule": RULE_LINK,
+            "assumptions": ASSUME_REF + [
+                "step clock = line events in frames of /repo and generated modules; budget 4000 + 400 per input byte "
+                "(+ static size), about 40x the worst intact decode",
+                "memory meter = tracemalloc peak around the decode of control-word corruptions, random strings and a "
+                "quarter of the bit flips; budget 200000 + 3000 bytes per input byte",
+                "the fixpoint oracle is not applied to decoded values whose greedy tail ends unaligned (C02's documented "
+                "exception)"],
+            "real_stub": dict(REAL_STUB_PY, stub=REAL_STUB_PY["stub"] + [
+                "the link between writer and reader (pure function applying faults to the stored bytes)",
+                "clock (line-event counter), memory meter (tracemalloc)"])}
